@@ -10,7 +10,7 @@ import (
 
 // Record-level faults on the table model (DESIGN.md §2.6). Each returns a description for the event log.
 
-var junkTokens = []string{"20240015", "20240100", "20241332", "20240230", "00000000", "99999999", "-", "+", ".", "#", "/", "abc", "-1", "+5", "1e999", "NaN", "25:61:61", "2024-01-01", "99999999999999999999", "\x00", " ", "ü", "12:xx:00", "1:2:3:4", "0", "-0.0", "20241301", strings.Repeat("9", 400), "\"", "a,b", "line\nbreak"}
+var junkTokens = []string{"19000229", "21000229", "20230229", "06:00:00\xa0", "\x8506:00:00", "20240015", "20240100", "20241332", "20240230", "00000000", "99999999", "-", "+", ".", "#", "/", "abc", "-1", "+5", "1e999", "NaN", "25:61:61", "2024-01-01", "99999999999999999999", "\x00", " ", "ü", "12:xx:00", "1:2:3:4", "0", "-0.0", "20241301", strings.Repeat("9", 400), "\"", "a,b", "line\nbreak"}
 
 type FaultFocus int
 
@@ -78,7 +78,7 @@ func MutateStatic(t *sim.T, m *StaticModel, focus FaultFocus) string {
 	if focus == FocusRefs {
 		kind = []int{2, 3, 4, 5, 6, 7, 16, 17, 18, 0, 19, 20, 14, 21, 24}[t.Choose(15)]
 	} else {
-		kind = t.Choose(25)
+		kind = t.Choose(27)
 	}
 	switch kind {
 	case 0: // blank a cell
@@ -114,6 +114,14 @@ func MutateStatic(t *sim.T, m *StaticModel, focus FaultFocus) string {
 		}
 		r := t.Choose(len(tb.Rows))
 		dangling := fmt.Sprintf("dangling%d", t.Choose(3))
+		if old := cell(tb, r, col); old != "" && t.Chance(1, 3) {
+			// a near miss of the valid reference: padded, case-changed, with or without leading zeros
+			nm := []string{old + " ", " " + old, "\t" + old, strings.ToUpper(old), strings.ToLower(old), "0" + old, "00" + old, strings.TrimLeft(old, "0"), old + "\u00a0", old + ".0"}[t.Choose(10)]
+			if nm != old && nm != "" {
+				setCell(tb, r, col, nm)
+				return fmt.Sprintf("near-miss reference %q for %q in %s row %d col %s", nm, old, tb.Name, r+1, tb.Header[col])
+			}
+		}
 		if t.Chance(1, 2) {
 			// an id that looks like the ids of other feeds (every generated feed numbers its entities the same
 			// way): a lookup structure that survives from an earlier parse would resolve it
@@ -163,6 +171,12 @@ func MutateStatic(t *sim.T, m *StaticModel, focus FaultFocus) string {
 			return ""
 		}
 		k := t.Range(2, min(5, len(tb.Rows)))
+		if t.Chance(1, 6) {
+			k = len(tb.Rows) // one ring through every stop of the table (hundreds of links in large tables)
+			if k > 1200 {
+				k = 1200
+			}
+		}
 		start := t.Choose(len(tb.Rows))
 		pc, ic := tb.Col("parent_station"), tb.Col("stop_id")
 		for i := 0; i < k; i++ {
@@ -416,6 +430,58 @@ func MutateStatic(t *sim.T, m *StaticModel, focus FaultFocus) string {
 			}
 		}
 		return fmt.Sprintf("%s id %q renamed to %q, the id of a %s row", a.Name, oldID, newID, b.Name)
+	case 25: // archive layout: the feed (or a copy of some tables) sits in folders; short-named extra members
+		n := 0
+		switch t.Choose(3) {
+		case 0: // the whole feed inside one folder
+			for _, tb := range f.Tables {
+				tb.Name = "google_transit/" + tb.Name
+				n++
+			}
+		case 1: // two folders hold differing copies of a table that may or may not exist at the top level
+			if len(f.Tables) > 0 {
+				src := f.Tables[t.Choose(len(f.Tables))]
+				a, b := src.Clone(), src.Clone()
+				base := src.Name
+				a.Name, b.Name = "current/"+base, "previous/"+base
+				if len(b.Rows) > 0 {
+					b.Rows = b.Rows[:len(b.Rows)/2]
+				}
+				f.Tables = append(f.Tables, a, b)
+				if t.Chance(1, 2) {
+					src.Name = "unused_" + base
+				}
+				n = 2
+			}
+		case 2:
+			f.Tables = append(f.Tables, &Table{Name: "x/agency.txt", Header: []string{"agency_name"}, Rows: [][]string{{"nested"}}})
+			n = 1
+		}
+		for _, extra := range []string{"LICENSE", "a", "dir/"} {
+			if t.Chance(1, 2) {
+				f.Tables = append(f.Tables, &Table{Name: extra, Raw: []byte("x")})
+			}
+		}
+		return fmt.Sprintf("archive layout with folders (%d members moved or added)", n)
+	case 26: // a UTF-16 member rich in characters outside the basic plane, several KiB long
+		tb := pickTable(t, f)
+		if tb == nil || len(tb.Rows) == 0 {
+			return ""
+		}
+		c := tb.Clone()
+		emoji := []string{"\U0001F68B", "\U0001F687", "\U00010348", "\U0001F600"}
+		for len(c.Rows) < 120 {
+			c.Rows = append(c.Rows, append([]string(nil), c.Rows[len(c.Rows)%len(tb.Rows)]...))
+		}
+		for r := range c.Rows {
+			for col := range c.Rows[r] {
+				if t.Chance(1, 3) {
+					c.Rows[r][col] += strings.Repeat(emoji[t.Choose(4)], 1+t.Choose(3))
+				}
+			}
+		}
+		tb.Raw = toUTF16(c.CSV(false, false), t.Chance(1, 2))
+		return fmt.Sprintf("%s as UTF-16 with characters outside the basic plane (%d bytes)", tb.Name, len(tb.Raw))
 	case 20: // a reference column made blank
 		tb := pickTable(t, f, "routes.txt", "stops.txt", "transfers.txt", "trips.txt", "stop_times.txt", "frequencies.txt")
 		if tb == nil || len(tb.Rows) == 0 {
